@@ -50,7 +50,7 @@ def model_cfg(cfg: dict) -> dict:
     from .checks_inverter import serial_for
     d.serial_number = serial_for(cfg["tag"])
     rated = cfg.get("rated", 0)
-    return {"four": bool(M.is_4_mppt(d)), "single": bool(M.is_single_phase(d)), "bat2": bool(M.is_2_battery(d)),
+    return {"tag": cfg["tag"], "four": bool(M.is_4_mppt(d)), "single": bool(M.is_single_phase(d)), "bat2": bool(M.is_2_battery(d)),
             "p745": bool(M.is_745_platform(d)), "rated": "lo" if rated < 15000 else ("mid" if rated < 25000 else "hi"),
             "refused": list(cfg["refused"]), "bats": [bool(b) if b is not None else True for b in cfg["bat"]]}
 
@@ -103,6 +103,12 @@ def compare_predictions(run: Run, progs: list[dict], traces: list[dict]) -> None
                         want = pred.get((k + 1, st))
                         compared += 1
                         got_listing = listed_blocks(fam, ev["table"])
+                        if want is not None and ok and run.prop == "C15" and (want[2] - got_listing):
+                            # C15, "supported ones are all present": a block that this model has (ModelTags.tla, rated power)
+                            # and that the simulated inverter answers is missing from sensors() after a successful call
+                            run.violation("C15.SupportedPresent", {"family": fam, "missing": sorted(want[2] - got_listing),
+                                                                   **{kk: str(vv) for kk, vv in progs[i]["cfg"].items()}},
+                                          {"program": progs[i], "span_api": "runtime"})
                         if want is None or list(want[0]) != reqs or want[1] != ok or want[2] != got_listing:
                             drift += 1
                             if drift <= 5:
